@@ -611,6 +611,9 @@ pub fn hash_script_data(
     datums: Option<PlutusList>,
 ) -> ScriptDataHash {
     let mut buf = Vec::new();
+    // An empty datum list is "no datums": the witness set does not carry an empty field 4
+    // and the ledger hashes nothing for it.
+    let datums = datums.filter(|d| d.len() > 0);
     if redeemers.len() == 0 && datums.is_some() {
         /*
         ; Finally, note that in the case that a transaction includes datums but does not
